@@ -25,7 +25,7 @@ pub fn check<K: Kmer + Send + Sync, P: PayKind>(c: &GCase) -> CheckResult {
             // the extension bytes are pruned by the reference model before the table is handed over
             let mt = model::build_table(&reads, k, c.stranded);
             let pt: PTable<P> = ptable(&mt, c.min_count());
-            let bm = real_filter::<K>(&reads, c.stranded, c.min_count());
+            let bm = real_filter::<K>(&reads, c.stranded, c.min_count())?;
             let (keys, _exts, data) = attach_payloads::<K, P>(&bm, &pt, c.stranded)?;
             let pruned = model::prune_exts(&pt, c.stranded);
             let exts: Vec<Exts> = keys
